@@ -544,7 +544,7 @@ func max(a, b int) int {
 }
 
 func gen(g *fw.Gen) {
-	for n := g.ShareOf(1000, 48000); n > 0; n-- {
+	for n := g.ShareOf(1000, 30000); n > 0; n-- {
 		g.Emit("history", fw.U64(g.Rng.Uint64()))
 	}
 }
